@@ -20,7 +20,7 @@ def rules(t):
         if mapf not in recv: r.bad(f"map|{kind}", c, f"{kind}: channel not taken from {mapf}")
         if f"as {kind}.channel_id" not in recv: r.bad(f"key|{kind}", c, f"{kind}: channel looked up with another id than the packet's channel_id")
     out.append(r)
-    r = RuleResult("C03.a2", "emitted packets carry the sending channel's own id; channel objects are registered under their configured id", floor=13)
+    r = RuleResult("C03.a2", "emitted packets carry the sending channel's own id; channel objects are registered under their configured id", floor=10)
     for name in ("SendChannelReliable::get_packets_to_send", "SendChannelUnreliable::get_packets_to_send"):
         f = t.fn(name)
         for s in t.aggrs("renet::packet::Packet", None, f):
